@@ -1,10 +1,11 @@
+\* the code as it is now (fix commits 11c4172 and bd40fd9 in /repo)
 SPECIFICATION Spec
 CONSTANTS
   Sizes = {1, 3}
   MaxScript = 3
   Retry = 2
-  Fix = {}
+  Fix = {"exists", "nopeer_fails"}
   Emit = FALSE
-INVARIANTS TypeOK FinalGood
+INVARIANTS TypeOK FinalGood CountedPresent Converges GateSound
 VIEW view
 CHECK_DEADLOCK FALSE
